@@ -699,6 +699,49 @@ func runC14(c *core.Ctx) {
 			}
 		})
 	}
+	// two invalid groups of every kind pairing (far too large, far too small, just above 127, just below -128) at every pair
+	// of positions of a 40-group string, as trytes and as trits: faults must not cancel each other (sums, XORs, counters),
+	// the first one is reported with the bytes before it
+	{
+		const groups = 40
+		var valid []byte
+		for g := 0; g < groups; g++ {
+			valid = append(valid, byte(g*37+5))
+		}
+		base := []byte(b1t6.EncodeToTrytes(valid))
+		kinds := []string{"MM", "NN", "TE", "FV"} // 364, -364, 128, -129 as tryte pairs (low tryte first)
+		type pr struct{ p, q int }
+		var prs []pr
+		for p := 0; p < groups; p++ {
+			for q := p + 1; q < groups; q++ {
+				prs = append(prs, pr{p, q})
+			}
+		}
+		core.Par(len(prs), func(i int) {
+			p, q := prs[i].p, prs[i].q
+			for _, kp := range kinds {
+				for _, kq := range kinds {
+					ty := append([]byte{}, base...)
+					copy(ty[2*p:], kp)
+					copy(ty[2*q:], kq)
+					var got []byte
+					var err error
+					pn := core.Catch(func() { got, err = b1t6.DecodeTrytes(trinary.Trytes(ty)) })
+					c.Eval(1)
+					if pn != nil || err == nil || !errors.Is(err, b1t6.ErrInvalidTrits) || got != nil {
+						c.Violate("C14/b1t6/trytes/two-invalid-groups", fmt.Sprintf("DecodeTrytes of %d groups with the invalid groups %q at %d and %q at %d: result %x, error %v (panic %v); want nil and invalid trits", groups, kp, p, kq, q, got, err, pn), map[string]interface{}{"trytes": string(ty)}, "", nil)
+						return
+					}
+					tr, terr := trinary.TrytesToTrits(trinary.Trytes(ty))
+					if terr == nil {
+						src := make([]int8, len(tr))
+						copy(src, tr)
+						c14JudgeDecode(c, "b1t6", src, "two-invalid-groups")
+					}
+				}
+			}
+		})
+	}
 	if c.Thorough() {
 		// all pairs of b1t8 groups: 43 M
 		var accp [6561]int64
